@@ -265,7 +265,7 @@ def const_values(rng, shape, kind="normal"):
   return rng.normal(size=shape).astype(np.float32)
 
 
-def build(scn, seed=0, rng=None, const_fn=None, signatures=True):
+def build(scn, seed=0, rng=None, const_fn=None, signatures=True, name_fn=None):
   """Returns (model bytes, info) where info has tensor names/shapes/codes; raises Unrealisable."""
   rng = rng or np.random.default_rng(seed)
   codes = concretise(scn, seed)
@@ -332,7 +332,7 @@ def build(scn, seed=0, rng=None, const_fn=None, signatures=True):
     names = []
     shapes = []
     for t in range(len(role)):
-      name = tname(si, t, nsub)
+      name = name_fn(si, t) if name_fn else tname(si, t, nsub)
       names.append(name)
       r = role[t]
       if r == "act":
